@@ -27,6 +27,13 @@ class EngineError(Exception):
     pass
 
 
+class Aliasing(EngineError):
+    """two distinct identifiers of the universe were observed at the same address"""
+    def __init__(self, text, what):
+        super().__init__(text)
+        self.what = what
+
+
 def scratch_root():
     base = os.environ.get("TMPDIR", "/tmp")
     d = tempfile.mkdtemp(prefix="hsverif.", dir=base)
@@ -156,7 +163,14 @@ class World:
                 self.META[i][fi] = new[0]
         allp = self.PIDREF + self.CIDREF + [o for o in self.OBJ if o] + [m for r in self.META for m in r]
         if len(set(allp)) != len(allp):
-            raise EngineError("learned addresses collide: identifiers alias (C18 territory)")
+            names = {}
+            for i, pth in enumerate(self.PIDREF):
+                names.setdefault(pth, []).append(("pid", self.pids[i]))
+            for i in range(self.NP):
+                for f in range(self.NF):
+                    names.setdefault(self.META[i][f], []).append(("pid,format", self.pids[i], self.eff[f]))
+            dup = [v for v in names.values() if len(v) > 1]
+            raise Aliasing("learned addresses collide: distinct identifiers alias", dup[:3])
         self.shim.fs = F0
         if self.mp:
             # the layout was learned in the default mode; the instance under test is initialised with the variable set
